@@ -672,6 +672,16 @@ fn simplify(c: &Case) -> Vec<Case> {
     out
 }
 
+/// libFuzzer entry: the input bytes are the entropy tape (little-endian u32 words); same
+/// generator, same oracle as the proptest tiers.
+#[allow(dead_code)]
+pub fn fuzz_bytes(data: &[u8]) {
+    let tape = fv::tape::words_from_bytes(data, 420);
+    let case = decode(&mut Tape::new(&tape), Tier::Quick);
+    engine::fuzz_one("C11", &case, &render, &check);
+}
+
+#[allow(dead_code)]
 fn main() -> std::process::ExitCode {
     // the oracle checks itself (second definitions, published answers) before it judges falcon
     if !std::env::args().any(|a| a == "--worker") {
